@@ -616,59 +616,108 @@ pub fn run_all(which: &[&str], thorough: bool, threads: usize) -> (MStats, Vec<V
 // and report what can be said without it.
 
 /// which: any of "cuckoo", "qf", "cms", "hll". Returns (stats, violations).
+/// A hasher that distinguishes HOW a value was written: `write_u64(x)`, `write_usize(x)` and `write(&x.to_ne_bytes())` give
+/// different hashes. The `Hasher` contract allows that; a structure that hashes the same quantity through different methods at
+/// different sites (insert vs. relocation, say) places and looks up its entries inconsistently under such a hasher.
+#[derive(Clone, Default, PartialEq, Eq, Debug)]
+pub struct PickyBuild;
+pub struct PickyHasher(u64);
+fn picky_step(s: u64, tag: u64, v: u64) -> u64 {
+    let mut x = s.rotate_left(5) ^ v.wrapping_mul(0x9E37_79B9_7F4A_7C15) ^ (tag << 56);
+    x ^= x >> 29;
+    x = x.wrapping_mul(0xBF58_476D_1CE4_E5B9);
+    x ^ (x >> 32)
+}
+impl std::hash::Hasher for PickyHasher {
+    fn finish(&self) -> u64 {
+        picky_step(self.0, 0xF, 0)
+    }
+    fn write(&mut self, bytes: &[u8]) {
+        for &b in bytes {
+            self.0 = picky_step(self.0, 1, b as u64);
+        }
+    }
+    fn write_u8(&mut self, i: u8) {
+        self.0 = picky_step(self.0, 2, i as u64);
+    }
+    fn write_u16(&mut self, i: u16) {
+        self.0 = picky_step(self.0, 3, i as u64);
+    }
+    fn write_u32(&mut self, i: u32) {
+        self.0 = picky_step(self.0, 4, i as u64);
+    }
+    fn write_u64(&mut self, i: u64) {
+        self.0 = picky_step(self.0, 5, i);
+    }
+    fn write_usize(&mut self, i: usize) {
+        self.0 = picky_step(self.0, 6, i as u64);
+    }
+}
+impl std::hash::BuildHasher for PickyBuild {
+    type Hasher = PickyHasher;
+    fn build_hasher(&self) -> PickyHasher {
+        PickyHasher(0x1234_5678_9ABC_DEF0)
+    }
+}
+
+fn cuckoo_real<B: std::hash::BuildHasher + Clone + Eq + Default>(hname: &str, st: &mut MStats, vs: &mut Vec<Viol>) {
+    for &(b, nb, l) in &[(2usize, 16usize, 8usize), (4, 64, 12), (3, 8, 5), (2, 8, 64)] {
+        for kind in [0usize, 3] {
+            for tail in [Tail::Zero, Tail::Max] {
+                let cfg = json!({"structure": "CuckooFilter", "hasher": hname, "bucketsize": b, "n_buckets": nb, "l_fingerprint": l, "key_family": kind, "rng_tail_policy": format!("{:?}", tail)});
+                let sig = format!("{} cuckoo({},{},{})", if hname.starts_with("default") { "real-hasher" } else { "method-sensitive-hasher" }, b, nb, l);
+                verif_kick_budget(None);
+                let r = mccore::panics::catch(|| {
+                    let mut out: Vec<Viol> = vec![];
+                    let mut f: CuckooFilter<u64, ChoiceRng, B> = CuckooFilter::with_params_and_hash(ChoiceRng, b, nb, l, B::default());
+                    let keys = family(kind, (b * nb) as u64 * 4 / 5);
+                    let mut stored: Vec<u64> = vec![];
+                    for (step, &k) in keys.iter().enumerate() {
+                        chooser::begin_with(&[], tail, 0);
+                        let ins = f.insert(&k);
+                        chooser::end();
+                        if ins.is_ok() {
+                            stored.push(k);
+                        }
+                        if f.len() != stored.len() {
+                            out.push(viol("C14", format!("{} len", sig), format!("step {}: len() = {} after {} successful inserts", step, f.len(), stored.len()), cfg.clone()));
+                            return out;
+                        }
+                        if step % 8 == 7 || step + 1 == keys.len() {
+                            if let Some(&x) = stored.iter().find(|&&x| !f.query(&x)) {
+                                false_negative(&mut out, "C14", format!("{} false negative", sig), format!("step {}: inserted key {} is reported absent", step, x), cfg.clone());
+                                return out;
+                            }
+                        }
+                    }
+                    // delete everything that was stored: every delete finds a copy of the key's class; the filter ends empty
+                    for (i, &k) in stored.iter().enumerate() {
+                        if !f.delete(&k) {
+                            out.push(viol("C14", format!("{} delete", sig), format!("delete of the {}-th inserted key {} returned false while {} copies are stored", i, k, stored.len() - i), cfg.clone()));
+                            return out;
+                        }
+                    }
+                    if f.len() != 0 || !f.is_empty() || f.verif_table().iter().any(|&x| x != 0) {
+                        out.push(viol("C14", format!("{} not empty after deleting everything", sig), format!("len() = {}, is_empty() = {}, occupied slots = {}", f.len(), f.is_empty(), f.verif_table().iter().filter(|&&x| x != 0).count()), cfg.clone()));
+                    }
+                    out
+                });
+                st.ops += 1;
+                match r {
+                    Ok(v) => vs.extend(v),
+                    Err(p) => vs.push(viol("C14", format!("{} panics", sig), format!("panicked: {}", p), cfg)),
+                }
+            }
+        }
+    }
+}
+
 pub fn real_hasher_runs(which: &[&str]) -> (MStats, Vec<Viol>) {
     let mut st = MStats::default();
     let mut vs: Vec<Viol> = vec![];
     if which.contains(&"cuckoo") {
-        for &(b, nb, l) in &[(2usize, 16usize, 8usize), (4, 64, 12), (3, 8, 5), (2, 8, 64)] {
-            for kind in [0usize, 3] {
-                for tail in [Tail::Zero, Tail::Max] {
-                    let cfg = json!({"structure": "CuckooFilter", "hasher": "default (SipHash)", "bucketsize": b, "n_buckets": nb, "l_fingerprint": l, "key_family": kind, "rng_tail_policy": format!("{:?}", tail)});
-                    let sig = format!("real-hasher cuckoo({},{},{})", b, nb, l);
-                    verif_kick_budget(None);
-                    let r = mccore::panics::catch(|| {
-                        let mut out: Vec<Viol> = vec![];
-                        let mut f: CuckooFilter<u64, ChoiceRng> = CuckooFilter::with_params(ChoiceRng, b, nb, l);
-                        let keys = family(kind, (b * nb) as u64 * 4 / 5);
-                        let mut stored: Vec<u64> = vec![];
-                        for (step, &k) in keys.iter().enumerate() {
-                            chooser::begin_with(&[], tail, 0);
-                            let ins = f.insert(&k);
-                            chooser::end();
-                            if ins.is_ok() {
-                                stored.push(k);
-                            }
-                            if f.len() != stored.len() {
-                                out.push(viol("C14", format!("{} len", sig), format!("step {}: len() = {} after {} successful inserts", step, f.len(), stored.len()), cfg.clone()));
-                                return out;
-                            }
-                            if step % 8 == 7 || step + 1 == keys.len() {
-                                if let Some(&x) = stored.iter().find(|&&x| !f.query(&x)) {
-                                    false_negative(&mut out, "C14", format!("{} false negative", sig), format!("step {}: inserted key {} is reported absent", step, x), cfg.clone());
-                                    return out;
-                                }
-                            }
-                        }
-                        // delete everything that was stored: every delete finds a copy of the key's class; the filter ends empty
-                        for (i, &k) in stored.iter().enumerate() {
-                            if !f.delete(&k) {
-                                out.push(viol("C14", format!("{} delete", sig), format!("delete of the {}-th inserted key {} returned false while {} copies are stored", i, k, stored.len() - i), cfg.clone()));
-                                return out;
-                            }
-                        }
-                        if f.len() != 0 || !f.is_empty() || f.verif_table().iter().any(|&x| x != 0) {
-                            out.push(viol("C14", format!("{} not empty after deleting everything", sig), format!("len() = {}, is_empty() = {}, occupied slots = {}", f.len(), f.is_empty(), f.verif_table().iter().filter(|&&x| x != 0).count()), cfg.clone()));
-                        }
-                        out
-                    });
-                    st.ops += 1;
-                    match r {
-                        Ok(v) => vs.extend(v),
-                        Err(p) => vs.push(viol("C14", format!("{} panics", sig), format!("panicked: {}", p), cfg)),
-                    }
-                }
-            }
-        }
+        cuckoo_real::<std::hash::BuildHasherDefault<std::collections::hash_map::DefaultHasher>>("default (SipHash)", &mut st, &mut vs);
+        cuckoo_real::<PickyBuild>("method-sensitive (write_u64 / write_usize / write(bytes) hash differently)", &mut st, &mut vs);
     }
     if which.contains(&"qf") {
         for &(q, r) in &[(4usize, 3usize), (6, 5), (8, 8), (5, 20)] {
